@@ -398,6 +398,44 @@ Definition wit1 : list (tid * event) := [
  (1, EExitCode 0%Z);
  (3, EProcEnded 12 SSkipped)
 ].
+
+(* The same failure through the zombie window (F38) alone: A (instance 10) exits with 1 and ends, B (instance
+   12) is refused and writes state Skipped.  RestartProcess(A) while the goroutine of instance 10 still
+   lives creates instance 14, which runs, exits with 0 and ends; RestartProcess(B) while the goroutine of
+   instance 12 still lives creates instance 13, whose dependency wait on A succeeds; its command exits
+   with 0 and it stores exit code 0 under the name B before instance 12 logs proc_ended(Skipped). *)
+Definition wit2 : list (tid * event) := [
+ (100, EApiBegin OpRun);
+ (100, ENewInst 10 1); (100, EState 10 SPending); (100, ERegAdd 10 1); (100, ESpawn 10 1);
+ (100, ENewInst 12 2); (100, EState 12 SPending); (100, ERegAdd 12 2); (100, ESpawn 12 2);
+ (100, ERunSpawned);
+ (1, EBegin 10); (3, EBegin 12);
+ (3, EDoneGet 1 None); (3, ELookupMid 1); (3, ERegGet 1 (Some 10)); (3, EDepWait 1 (Some 10));
+ (1, ERunChecked false); (1, EStarted); (1, EState 10 SRunning); (1, ELaunch true);
+ (900, ECmdExit 10 1%Z);
+ (1, EWaitReturn 1%Z); (1, EExitCode 1%Z); (1, ERestartDecision false);
+ (1, EProcEnd 10 SCompleted); (1, EState 10 SCompleted);
+ (3, EDepDone 1 false); (3, ESkip); (3, EProcEnd 12 SSkipped); (3, EState 12 SSkipped);
+ (* RestartProcess(A) while the goroutine of the ended instance 10 still lives *)
+ (200, EApiBegin (OpRestart 1)); (200, ERegGet 1 (Some 10)); (200, ERestartChecked 1 (Some 10));
+ (200, ENoRestart 10); (200, EStopEnter 10 true); (200, EStopReturn 10); (200, ERestartStopped 1);
+ (200, ENewInst 14 1); (200, EState 14 SPending); (200, ERegAdd 14 1); (200, ESpawn 14 1); (200, EApiReturn true);
+ (4, EBegin 14); (4, ERunChecked false); (4, EStarted); (4, EState 14 SRunning); (4, ELaunch true);
+ (900, ECmdExit 14 0%Z);
+ (4, EWaitReturn 0%Z); (4, EExitCode 0%Z); (4, ERestartDecision false);
+ (4, EProcEnd 14 SCompleted); (4, EState 14 SCompleted);
+ (* RestartProcess(B) while the goroutine of the skipped instance 12 still lives *)
+ (300, EApiBegin (OpRestart 2)); (300, ERegGet 2 (Some 12)); (300, ERestartChecked 2 (Some 12));
+ (300, ENoRestart 12); (300, EStopEnter 12 true); (300, EStopReturn 12); (300, ERestartStopped 2);
+ (300, ENewInst 13 2); (300, EState 13 SPending); (300, ERegAdd 13 2); (300, ESpawn 13 2); (300, EApiReturn true);
+ (5, EBegin 13);
+ (5, EDoneGet 1 None); (5, ELookupMid 1); (5, ERegGet 1 (Some 14)); (5, EDepWait 1 (Some 14));
+ (5, EDepDone 1 true);
+ (5, ERunChecked false); (5, EStarted); (5, EState 13 SRunning); (5, ELaunch true);
+ (900, ECmdExit 13 0%Z);
+ (5, EWaitReturn 0%Z); (5, EExitCode 0%Z);
+ (3, EProcEnded 12 SSkipped)
+].
 End Witness.
 
 Theorem C05_refuted_lemma : exists cs ord evs s,
@@ -407,6 +445,22 @@ Proof.
   destruct (accept (init Witness.cs1 false) Witness.wit1) as [s|] eqn:E.
   - exists s. split; [reflexivity|]. vm_compute. reflexivity.
   - vm_compute in E. discriminate E.
+Qed.
+
+(* each of the two flags is needed on its own *)
+Theorem C05_windows_needed_lemma :
+  (exists cs ord evs s, accept (init cs ord) evs = Some s /\ w_zombie (final_obs cs evs) = false /\ holds_C05 cs evs = false) /\
+  (exists cs ord evs s, accept (init cs ord) evs = Some s /\ w_dup (final_obs cs evs) = false /\ holds_C05 cs evs = false).
+Proof.
+  split.
+  - exists Witness.cs1, false, Witness.wit1.
+    destruct (accept (init Witness.cs1 false) Witness.wit1) as [s|] eqn:E.
+    + exists s. split; [reflexivity|]. vm_compute. split; reflexivity.
+    + vm_compute in E. discriminate E.
+  - exists Witness.cs1, false, Witness.wit2.
+    destruct (accept (init Witness.cs1 false) Witness.wit2) as [s|] eqn:E.
+    + exists s. split; [reflexivity|]. vm_compute. split; reflexivity.
+    + vm_compute in E. discriminate E.
 Qed.
 
 (* ---- declarative (position-quantified) forms ------------------------------------------------------- *)
